@@ -68,6 +68,12 @@ func runProp(t *testing.T, ps propSpec) {
 		if v != nil && owns(v, ps.id) {
 			rt.Fail(t, rec, "replay", p, v.Msg+"\n"+strings.Join(st.Log, "\n"))
 		}
+		if os.Getenv("VERIF_SHOWLOG") != "" {
+			t.Log("\n" + strings.Join(st.Log, "\n"))
+			if v != nil {
+				t.Logf("violation (props %v): %s", v.Props, v.Msg)
+			}
+		}
 		rec.Case(true, prog.Canon())
 		rec.Case(true, prog.Canon()+"#")
 		return
@@ -151,7 +157,9 @@ func TestC01(t *testing.T) {
 		rule: "rapid-generated programs interleaving 2-4 transactions (lookups, forward/backward/partial range scans, scan-and-modify, inserts, updates, deletes, commits, aborts, persists, merge syncs) on 1-2 generated tables with tiny value domains; oracle = serial replay of every committed writer's reads and writes at its commit point on an own logical model. Non-trivial: a writer committed after another commit happened since its start, or a conflict abort occurred; distinct by program.",
 		opts: GenOpts{World: baseWorld, Slots: 4, MaxInstrs: 40, ValRange: 12, SkewPct: 40,
 			Weights: map[string]int{"begin": 10, "lookup": 12, "scan": 12, "complete": 10}},
-		nt:    func(l map[string]int) bool { return l["commit_overlapping_other_commit"] > 0 || l["conflict_abort"] > 0 },
+		nt: func(l map[string]int) bool {
+			return l["commit_overlapping_other_commit"] > 0 || l["conflict_abort"] > 0
+		},
 		quick: 1500, thorough: 20000})
 }
 
@@ -160,7 +168,7 @@ func TestC02(t *testing.T) {
 		rule: "same engine, weighted towards read transactions held open across foreign commits, persists and merges and re-reading all earlier reads; oracle = every read equals start snapshot + own changes (own model) and repeated reads are identical. Non-trivial: a re-read happened in a history with a successful commit and a persist/merge; distinct by program.",
 		opts: GenOpts{World: baseWorld, Slots: 4, MaxInstrs: 40, ValRange: 12,
 			Weights: map[string]int{"beginread": 8, "reread": 10, "persist": 4, "mergesync": 4, "lookup": 10, "scan": 10}},
-		nt: func(l map[string]int) bool { return l["reread"] > 0 && l["commit_ok"] > 0 && l["persist"] > 0 },
+		nt:    func(l map[string]int) bool { return l["reread"] > 0 && l["commit_ok"] > 0 && l["persist"] > 0 },
 		quick: 1500, thorough: 20000})
 }
 
@@ -169,7 +177,7 @@ func TestC03(t *testing.T) {
 	// directed generator, writeLimit: small histories cannot reach it)
 	runProp(t, propSpec{id: "C03", extra: writeLimit, modeF: [2]int{100, 1000},
 		rule: "same engine with explicit aborts, conflict aborts, max-age aborts (MaxAge lowered, injected clock ticks), exclusive index builds preempting writers; oracle = after every completion/abort a fresh read transaction shows exactly the model folded over the successful completions, failed transactions stay failed, Info.Nrows/Size equal actual rows/bytes. Non-trivial: history with a failed/aborted and a successful completion; distinct by program.",
-		opts: GenOpts{World: baseWorld, Slots: 4, MaxInstrs: 40, ValRange: 12, LowMaxAge: true,
+		opts: GenOpts{World: baseWorld, Slots: 4, MaxInstrs: 40, ValRange: 12, LowMaxAge: true, ChainPct: 8,
 			Weights: map[string]int{"abort": 5, "tick": 4, "admin": 2, "complete": 10}},
 		nt: func(l map[string]int) bool {
 			return l["commit_ok"] > 0 && (l["commit_failed"]+l["explicit_abort"]+l["conflict_abort"]+l["maxage_abort"]+l["exclusive_abort"]) > 0
@@ -180,11 +188,11 @@ func TestC03(t *testing.T) {
 func TestC06(t *testing.T) {
 	runProp(t, propSpec{id: "C06", modeF: [2]int{100, 1000},
 		rule: "same engine weighted towards update-then-delete / delete-then-reinsert in one transaction, scan-and-modify, cascades and index builds on populated tables; oracle = in every state delivered by the state-update hook, in every update transaction's own view after each write, and in every fresh read transaction: each index is strictly ordered, each entry's key is the key of its record, and all indexes yield the same offsets (= Info.Nrows). Non-trivial: >= 2 successful commits and a cascade, refused or scan-modify operation; distinct by program.",
-		opts: GenOpts{World: WorldOpts{Fkeys: true, SelfRef: true, EmptyKey: true, MaxTabs: 2}, Slots: 3, MaxInstrs: 45, ValRange: 12,
+		opts: GenOpts{World: WorldOpts{Fkeys: true, SelfRef: true, EmptyKey: true, MaxTabs: 2}, Slots: 3, MaxInstrs: 45, ValRange: 12, ChainPct: 8,
 			Weights: map[string]int{"update": 14, "delete": 10, "scanmod": 6, "admin": 2, "persist": 3, "mergesync": 3}},
 		states: true,
 		nt:     func(l map[string]int) bool { return l["commit_ok"] >= 2 && l["states_checked"] >= 3 },
-		quick: 1200, thorough: 15000})
+		quick:  1200, thorough: 15000})
 }
 
 func TestC07(t *testing.T) {
@@ -199,9 +207,11 @@ func TestC07(t *testing.T) {
 func TestC08(t *testing.T) {
 	runProp(t, propSpec{id: "C08", modeF: [2]int{100, 1000},
 		rule: "same engine on target/source table pairs with block, cascade and cascade-update foreign keys, composite and self-referencing keys, values with zero bytes; oracle = every committed model state has a target row for every non-empty foreign key value; source writes without target and target deletes/updates with non-cascading sources must be refused; cascades change exactly the matching sources (own view and committed state compared with the model). Non-trivial: a change of a target row that has source rows cascaded or was refused; distinct by program.",
-		opts: GenOpts{World: WorldOpts{Fkeys: true, SelfRef: true, EmptyKey: false, MaxTabs: 3}, Slots: 3, MaxInstrs: 40, ValRange: 7, SkewPct: 40, Domain: []int{0, 6, 1, 5, 8, 14, 2},
+		opts: GenOpts{World: WorldOpts{Fkeys: true, SelfRef: true, EmptyKey: false, MaxTabs: 3}, Slots: 3, MaxInstrs: 40, ValRange: 7, SkewPct: 40, ChainPct: 15, Domain: []int{0, 6, 1, 5, 8, 14, 2},
 			Weights: map[string]int{"output": 18, "update": 12, "delete": 12}},
-		nt:    func(l map[string]int) bool { return l["cascade_ops"] > 0 || l["refused_target_change_with_sources"] > 0 },
+		nt: func(l map[string]int) bool {
+			return l["cascade_ops"] > 0 || l["refused_target_change_with_sources"] > 0
+		},
 		quick: 1500, thorough: 20000})
 }
 
@@ -212,7 +222,7 @@ func TestC16(t *testing.T) {
 			Weights: map[string]int{"pausemerge": 6, "pausepersist": 6, "waitpaused": 8, "release": 5, "persist": 1, "mergesync": 1, "output": 16, "update": 8, "delete": 8, "complete": 14, "begin": 8, "scan": 3, "lookup": 4, "reread": 1, "abort": 1, "beginread": 1}},
 		pauses: true,
 		nt:     func(l map[string]int) bool { return l["commit_landed_between_compute_and_apply"] > 0 },
-		quick: 500, thorough: 8000})
+		quick:  500, thorough: 8000})
 }
 
 func TestC44(t *testing.T) {
